@@ -44,7 +44,7 @@ RULE = (
     "history oracle: Hypothesis draws a list of 1-34 operations (optional defining prefix of 2-4 + body of 1-30) over two slots, each holding a JSONGrammar, a "
     "SimpleGrammar and (half of the cases) a PydanticGrammar plus one Python model per grammar: update_from_names/"
     "types/data (merge on/off), update(other slot, excluded names, merge), update_from_schema/update_from_file, "
-    "restrict_to, rename_element, del, add_namespace, clear, copy into the other slot, pickle round trip, "
+    "restrict_to, rename_element (also to the same name), del, add_namespace, clear, copy into the other slot, pickle round trip, degenerate arguments (empty updates, update from itself, restrict_to all names), "
     "required_names add/discard/remove/clear, defaults set/del/update/assign and assignment of the other slot's Defaults object / copy / dict, schemas with additionalProperties false, construction from a pydantic model "
     "with optional fields, invalid variants of these (unknown names, merge on a simple grammar, already namespaced "
     "name) and the queries keys/len/in, names_without_namespace, schema, to_json, repr, getitem, to_simple_grammar, "
@@ -339,6 +339,7 @@ def _name_idx():
 
 _small = st.integers(0, 7)
 _merge = st.integers(0, 5).map(lambda v: v == 3)  # False is the simplest value
+_rare = st.integers(0, 7).map(lambda v: v == 5)  # degenerate arguments
 _bad = st.integers(0, 11).map(lambda v: v == 7)
 _slot = st.integers(0, 2).map(lambda v: 0 if v < 2 else 1)
 
@@ -366,18 +367,18 @@ def op_groups():
     dflt = st.integers(0, len(DEFAULT_CLASSES) - 1)
     excl = st.lists(st.integers(0, len(BASE_NAMES)), max_size=2)
     define = st.one_of(
-        _edit("names", names=names, merge=_merge), _edit("names", names=names, merge=_merge), _edit("names", names=names, merge=_merge),
-        _edit("types", items=typed, merge=_merge), _edit("types", items=typed, merge=_merge), _edit("types", items=typed, merge=_merge),
-        _edit("data", items=valued, merge=_merge), _edit("data", items=valued, merge=_merge),
+        _edit("names", names=names, merge=_merge, empty=_rare), _edit("names", names=names, merge=_merge, empty=_rare), _edit("names", names=names, merge=_merge, empty=_rare),
+        _edit("types", items=typed, merge=_merge, empty=_rare), _edit("types", items=typed, merge=_merge, empty=_rare), _edit("types", items=typed, merge=_merge, empty=_rare),
+        _edit("data", items=valued, merge=_merge, empty=_rare), _edit("data", items=valued, merge=_merge, empty=_rare),
         _edit("schema", props=props, merge=_merge, via_file=st.booleans(), closed=st.booleans()),
         _edit("schema", props=props, merge=_merge, via_file=st.booleans(), closed=st.booleans()),
         _edit("from_model", fields=fields), _edit("from_model", fields=fields),
     )
     structural = st.one_of(
-        _edit("update", excluded=excl, merge=_merge, common=st.just(False)), _edit("update", excluded=excl, merge=_merge, common=st.just(False)),
+        _edit("update", excluded=excl, merge=_merge, common=st.just(False), itself=_rare), _edit("update", excluded=excl, merge=_merge, common=st.just(False), itself=_rare),
         _edit("update", excluded=excl, merge=_merge, common=st.just(True)),
         _edit("restrict", keep=st.integers(0, 31), bad=_bad), _edit("restrict", keep=st.integers(0, 31), bad=_bad),
-        _edit("rename", el=_small, new=st.integers(0, len(BASE_NAMES) - 1), bad=_bad), _edit("rename", el=_small, new=st.integers(0, len(BASE_NAMES) - 1), bad=_bad),
+        _edit("rename", el=_small, new=st.integers(0, len(BASE_NAMES) - 1), bad=_bad, same=st.integers(0, 3).map(lambda v: v == 2)), _edit("rename", el=_small, new=st.integers(0, len(BASE_NAMES) - 1), bad=_bad, same=st.integers(0, 3).map(lambda v: v == 2)),
         _edit("delete", el=_small, bad=_bad), _edit("delete", el=_small, bad=_bad),
         _edit("namespace", el=_small, ns=st.integers(0, len(NAMESPACES) - 1), bad=_bad), _edit("namespace", el=_small, ns=st.integers(0, len(NAMESPACES) - 1), bad=_bad),
         _edit("clear"),
@@ -637,7 +638,11 @@ def apply_edit(op, fams, ctx, scratch) -> bool:
 
     if kind_op in ("names", "types", "data"):
         merge = op["merge"]
-        if kind_op == "data":
+        # degenerate but legal: an empty collection of names is a no-op (even with merge on a simple grammar)
+        empty = bool(op.get("empty"))
+        if empty:
+            ctx.cls("degenerate:empty_update")
+        if kind_op == "data" and not empty:
             incoming = {name_of(i): (CLASS_ATOM[DATA_DEF_CLASSES[c]],) for i, c in op["items"]}
             if nested_object_resets_update(ctx, fam.m["json"], incoming, merge):
                 ctx.cls("known:nested_object_update_skipped")
@@ -647,18 +652,18 @@ def apply_edit(op, fams, ctx, scratch) -> bool:
             if merge and kind == "pyd":
                 continue  # meaning of merge not shared
             if kind_op == "names":
-                names = [name_of(i) for i in op["names"]]
+                names = [] if empty else [name_of(i) for i in op["names"]]
                 items = {n: {"json": ("array_number",), "simple": np.ndarray, "pyd": "ndarray"}[kind] for n in names}
                 call = lambda g=g, names=names: g.update_from_names(names, merge=merge)  # noqa: E731
             elif kind_op == "types":
-                toks = {name_of(i): TYPE_TOKENS[t] for i, t in op["items"]}
+                toks = {} if empty else {name_of(i): TYPE_TOKENS[t] for i, t in op["items"]}
                 if kind == "pyd":
                     toks = {n: to_pyd_token(t) for n, t in toks.items()}
                 items = {n: {"json": (TOKEN_ATOM[t],), "simple": PY_TYPES[t], "pyd": t}[kind] for n, t in toks.items()}
                 arg = {n: PY_TYPES[t] for n, t in toks.items()}
                 call = lambda g=g, arg=arg: g.update_from_types(arg, merge=merge)  # noqa: E731
             else:
-                classes = {name_of(i): DATA_DEF_CLASSES[c] for i, c in op["items"]}
+                classes = {} if empty else {name_of(i): DATA_DEF_CLASSES[c] for i, c in op["items"]}
                 if kind == "pyd":
                     classes = {n: to_pyd_class(c) for n, c in classes.items()}
                 arg = materialize(classes)
@@ -671,12 +676,12 @@ def apply_edit(op, fams, ctx, scratch) -> bool:
                 else:
                     items = {n: ("ndarray" if isinstance(v, np.ndarray) else type(v).__name__) for n, v in arg.items()}
                 call = lambda g=g, arg=arg: g.update_from_data(arg, merge=merge)  # noqa: E731
-            invalid = merge and kind == "simple"
+            invalid = merge and kind == "simple" and not empty
             if _attempt(ctx, kind, f"{kind_op}(merge={merge})", call, invalid):
                 for n, spec in items.items():
                     m.set_type(n, spec, merge)
                 m.required |= set(items)
-                if kind == "json":
+                if kind == "json" and not empty:
                     json_structural = True
                     if kind_op in ("names", "data"):
                         fam.req_slot = True
@@ -687,6 +692,10 @@ def apply_edit(op, fams, ctx, scratch) -> bool:
 
     elif kind_op == "update":
         merge = op["merge"]
+        if op.get("itself"):
+            # degenerate but legal: a grammar updated from itself does not change
+            other = fam
+            ctx.cls("degenerate:update_from_itself")
         src_names = list(other.m["json"].types)
         # exclusions address the elements of the source (index-modulo); the last index is an unknown name
         excluded = [UNKNOWN if i == len(BASE_NAMES) else (src_names[i % len(src_names)] if src_names else name_of(i)) for i in op["excluded"]]
@@ -709,7 +718,7 @@ def apply_edit(op, fams, ctx, scratch) -> bool:
             invalid = merge and kind == "simple" and bool(src_m.types)
             call = lambda g=g, src_g=src_g: g.update(src_g, excluded_names=excluded, merge=merge)  # noqa: E731
             if _attempt(ctx, kind, f"update(excluded={excluded}, merge={merge})", call, invalid):
-                for n, spec in src_m.types.items():
+                for n, spec in list(src_m.types.items()):
                     if n not in excluded:
                         m.set_type(n, spec, merge)
                         if n in src_m.defaults:
@@ -814,6 +823,8 @@ def apply_edit(op, fams, ctx, scratch) -> bool:
         keep = [n for i, n in enumerate(names) if (op["keep"] >> (i % 5)) & 1]
         if op["bad"]:
             keep.append(UNKNOWN)
+        elif names and len(keep) == len(names):
+            ctx.cls("degenerate:restrict_to_all_names")
         for kind in fam.kinds():
             g, m = fam.g[kind], fam.m[kind]
             invalid = any(n not in m.types for n in keep)
@@ -827,10 +838,14 @@ def apply_edit(op, fams, ctx, scratch) -> bool:
     elif kind_op in ("rename", "namespace"):
         cur = _existing(fam, op["el"], op["bad"])
         if kind_op == "rename":
-            new = name_of(op["new"])
+            # degenerate but legal: renaming an element to its own name (e.g. an identity entry of a renaming map)
+            # keeps the element, its required flag and its default
+            new = cur if op.get("same") else name_of(op["new"])
+            if new == cur:
+                ctx.cls("degenerate:rename_to_same_name")
         else:
             new = NAMESPACES[op["ns"]] + ":" + cur
-        if any(new in fam.m[k].types for k in fam.kinds()):
+        if new != cur and any(new in fam.m[k].types for k in fam.kinds()):
             ctx.cls("rename_target_exists_skipped")
             return False
         for kind in fam.kinds():
